@@ -18,7 +18,8 @@ COMPONENTS = {
 }
 ASSUMPTIONS = ['pre-emption granularity: replicat source lines and synchronisation primitives',
                'source files do not change during the snapshot']
-PROBES = ['queue_full', 'worker_polled_empty', 'exists_true', 'two_loaders_same_file', 'stall', 'fail_injected']
+PROBES = ['target_write_failed', 'queue_full', 'worker_polled_empty', 'exists_true', 'two_loaders_same_file', 'stall', 'fail_injected']
+SHRINK_SEEDS = 16     # a race needs luck again after the workload changed
 TIERS = {'quick': {'budget_s': 75, 'batch': 20}, 'thorough': {'budget_s': 900, 'batch': 40}}
 
 
@@ -43,7 +44,7 @@ def gen_case(seed, tier):
         tree[-1]['d'] = base64.b64encode(rng.randbytes(3 * mx + 5)).decode()
     fail = None
     if rng.random() < 0.25:
-        fail = {'phase': rng.choice(['snapshot', 'restore']), 'call': rng.randrange(0, 12),
+        fail = {'phase': rng.choice(['snapshot', 'restore', 'restore-target']), 'call': rng.randrange(0, 12),
                 'mode': rng.choice(['before', 'before', 'after'])}
     return {
         'seed': seed,
@@ -85,6 +86,10 @@ def run_case(case):
         knobs = case.get('knobs')
         # one stalled call lasts ~1000 polling periods (bounded step count whatever the knob)
         stall_time = 1000 * (knobs['qt'] if knobs else 0.025)
+        # ... and latencies keep their ratio to the polling period (a 40 s call polled every 0.1 ms is 400 000 steps)
+        scale = (knobs['qt'] / 0.025) if knobs and knobs['qt'] < 0.025 else 1.0
+        W.lat = case['lat'] * scale
+        lat_cap = 60.0 * scale
         fail = case.get('fail')
 
         # ---- sequential reference (own copy of the store, zero latency, no pre-emption)
@@ -116,7 +121,7 @@ def run_case(case):
             if not install.set_snapshot_knobs(knobs['piece'], knobs['qt']):
                 probes['knobs_unavailable'] = 1
         try:
-            prof = W.profile(stall_call=case.get('stall'), stall_time=stall_time,
+            prof = W.profile(stall_call=case.get('stall'), stall_time=stall_time, lat_cap=lat_cap,
                              fail_call=fail['call'] if fail and fail['phase'] == 'snapshot' else None,
                              fail_mode=fail['mode'] if fail else 'before')
             snap = W.snapshot(client, [W.dir / 'src'], opts, profile=prof)
@@ -134,12 +139,33 @@ def run_case(case):
                 viol.append({'cls': 'manifest-differs', 'sig': {},
                              'msg': 'snapshot manifest differs from the sequential run: ' + _mdiff(m, mr)})
         if snap.ok and not viol:
-            prof = W.profile(stall_call=case.get('stall'), stall_time=stall_time,
+            prof = W.profile(stall_call=case.get('stall'), stall_time=stall_time, lat_cap=lat_cap,
                              fail_call=fail['call'] if fail and fail['phase'] == 'restore' else None,
                              fail_mode='before')
-            rest = W.restore(client, W.dir / 'out', opts, profile=prof)
+            target_fault = None
+            if fail and fail['phase'] == 'restore-target':
+                target_fault = _TargetWriteFault(fail['call'])
+            try:
+                rest = W.restore(client, W.dir / 'out', opts, profile=prof)
+            finally:
+                if target_fault is not None:
+                    target_fault.remove()
             b = rest.backend
             injected = b is not None and b.failed_call_desc is not None
+            if target_fault is not None and target_fault.fired:
+                probes['target_write_failed'] = 1
+                if rest.hang is not None:
+                    viol.append({'cls': 'hang', 'sig': {'phase': 'restore', 'kind': type(rest.hang).__name__}, 'msg': f'restore did not terminate: {rest.hang}'})
+                elif rest.exc is None:
+                    viol.append({'cls': 'failure-swallowed', 'sig': {'phase': 'restore-target'},
+                                 'msg': f'write #{fail["call"]} into a restored file failed with EIO but restore reported success'})
+                elif not isinstance(rest.exc, OSError):
+                    viol.append({'cls': 'wrong-error', 'sig': {'phase': 'restore-target', 'exc': type(rest.exc).__name__},
+                                 'msg': f'a write into a restored file failed with EIO, restore raised {rest.exc!r}'})
+                if rest.repo is not None and rest.repo._slots.qsize() != N and not viol:
+                    viol.append({'cls': 'slots-leaked', 'sig': {'phase': 'restore', 'failed': True},
+                                 'msg': f'{rest.repo._slots.qsize()} of {N} slots available after the failed restore'})
+                return _result(W, viol, probes, case)
             _common(viol, 'restore', rest, N, injected, ref_rest, probes)
             if rest.ok and ref_rest is not None and ref_rest.ok:
                 got, ref = gen.read_tree(W.dir / 'out'), gen.read_tree(W.dir / 'ref_out')
@@ -152,6 +178,29 @@ def run_case(case):
         return _result(W, viol, probes, case)
     finally:
         W.close()
+
+
+class _TargetWriteFault:
+    """The k-th write into a restored file fails (EIO): the disk under the restore target, not the backend."""
+
+    def __init__(self, k):
+        import errno
+        import replicat.repository as R
+        self.R, self.k, self.n, self.fired = R, k, 0, False
+        self.orig = R.Repository._write_file_part
+        fault = self
+
+        def _write_file_part(repo, path, data, offset):
+            i = fault.n
+            fault.n += 1
+            if i == fault.k:
+                fault.fired = True
+                raise OSError(errno.EIO, 'Input/output error (injected)', str(path))
+            return fault.orig(repo, path, data, offset)
+        R.Repository._write_file_part = _write_file_part
+
+    def remove(self):
+        self.R.Repository._write_file_part = self.orig
 
 
 def _common(viol, phase, r, N, injected, ref, probes):
